@@ -502,7 +502,7 @@ class RGen:
             self.features.add("function_body_varies_between_models")
             self.features.add("nested_function")
 
-    def make_functions_v5(self):
+    def make_functions_v5(self):  # FROZEN (as all of generator version 5): registered replays decode with it - new templates go into a new version
         # f8(x) -> (a, b) with a = Relu(x), b = Neg(a): two outputs, the second computed from the first; call sites may omit
         # the first one ("" in the node's output list)
         if self.t.pick(2) == 0:
@@ -511,6 +511,16 @@ class RGen:
             self.fn_sigs["f8"] = (1, [], ["F23"], 2)
             self.features.add("function")
             self.features.add("two_output_function")
+
+    def make_functions_v6(self):
+        # f9(x) = Add(x, Constant(value = a [2,3] tensor)): every inlined call site gets a copy of the Constant node
+        if self.t.pick(2) == 0:
+            kt = nph.from_array(np.array([[1, 2, 3], [4, 5, 6]], dtype=np.float32) * (1 + self.t.pick(2)), name="f9_const")
+            self.functions["f9"] = oh.make_function("local", "f9", ["x"], ["y"], [oh.make_node("Constant", [], ["k9"], value=kt, name="f9k"), oh.make_node("Add", ["x", "k9"], ["y"], name="f9a")],
+                                                    [oh.make_opsetid("", self.opset)])
+            self.fn_sigs["f9"] = (1, [])
+            self.features.add("function")
+            self.features.add("function_with_tensor_constant")
 
     def call(self, nodes, pool):
         t = self.t
@@ -553,6 +563,8 @@ class RGen:
             self.make_functions_v4()
         if self.gen >= 5:
             self.make_functions_v5()
+        if self.gen >= 6:
+            self.make_functions_v6()
         inputs = [vinfo("x0", "F23"), vinfo("x1", "F23"), vinfo("cnd", "B")]
         pool = [("x0", "F23"), ("x1", "F23"), ("cnd", "B")]
         inits = []
